@@ -563,3 +563,212 @@ def _guarded_self_getattr(repo, m, cls, fn, call):
     bad = [k for k in keys if k.startswith("_") or k not in defined]
     return (not bad), (f"getattr(self, {name.id}) guarded by `{name.id} in {guard}`; {guard} = {sorted(keys)} are the class's own public helpers"
                        if not bad else f"{guard} contains {bad}: not public helpers of {cls}")
+
+
+# --------------------------------------------------------------------------- C04
+MARKUP_NAMES = {"Markup", "Markupsafe"}
+ESCAPERS = {"markupsafe_escape", "escape"}
+SAFE_ALPHABET_CALLS = {"urllib.parse.quote_plus": "percent-encoding output alphabet has no HTML-significant character"}
+LINE_TERM_PATTERNS = {"RE_LINETERM"}
+
+
+def _assignments_before(fn, site, name):
+    """Straight-line assignments to `name` in the block containing `site`, before it (nearest last)."""
+    for node in ast.walk(fn):
+        for fld in ("body", "orelse", "finalbody"):
+            body = getattr(node, fld, None)
+            if not (isinstance(body, list) and body and isinstance(body[0], ast.stmt)):
+                continue
+            for i, st in enumerate(body):
+                if any(x is site for x in ast.walk(st)):
+                    prev = []
+                    for p in body[:i]:
+                        if isinstance(p, ast.Assign) and any(isinstance(t, ast.Name) and t.id == name for t in p.targets):
+                            prev.append(p.value)
+                        elif isinstance(p, ast.AnnAssign) and isinstance(p.target, ast.Name) and p.target.id == name and p.value is not None:
+                            prev.append(p.value)
+                    if prev:
+                        return prev[-1], body, i
+    return None, None, None
+
+
+def _guard_of(fn, site):
+    """Conjunction of `if` tests dominating `site` (text)."""
+    tests = []
+
+    def rec(body, acc):
+        for st in body:
+            if st is site or any(x is site for x in ast.walk(st)):
+                if isinstance(st, ast.If):
+                    if any(x is site for b in st.body for x in ast.walk(b)):
+                        rec(st.body, acc + [ast.unparse(st.test)])
+                    else:
+                        rec(st.orelse, acc + ["not (" + ast.unparse(st.test) + ")"])
+                elif isinstance(st, (ast.With, ast.For, ast.While, ast.Try)):
+                    for fld in ("body", "orelse", "finalbody"):
+                        rec(getattr(st, fld, []), acc)
+                    for h in getattr(st, "handlers", []):
+                        rec(h.body, acc)
+                else:
+                    tests.extend(acc)
+                    return
+
+    rec(fn.body, [])
+    return tests
+
+
+def _safe_expr(e, fn, site, depth=0):
+    """(ok, reason) - is expression `e` a *safe* string at `site` (closure rules of DESIGN C04)?"""
+    if depth > 6:
+        return False, "too deep"
+    if isinstance(e, ast.Constant) and isinstance(e.value, str):
+        return True, "engine literal"
+    if isinstance(e, ast.Call):
+        fname = ast.unparse(e.func)
+        if fname in ESCAPERS:
+            return True, f"{fname}(...) escapes"
+        if fname in SAFE_ALPHABET_CALLS:
+            return True, SAFE_ALPHABET_CALLS[fname]
+        if fname in MARKUP_NAMES and e.args:
+            return _safe_expr(e.args[0], fn, site, depth + 1)
+        if isinstance(e.func, ast.Attribute) and e.func.attr == "sub" and isinstance(e.func.value, ast.Name) and e.func.value.id in LINE_TERM_PATTERNS and len(e.args) == 2:
+            lit, arg = e.args
+            if isinstance(lit, ast.Constant) and isinstance(lit.value, str):
+                ok, why = _safe_expr(arg, fn, site, depth + 1)
+                return ok, f"line terminators replaced by engine literal {lit.value!r} in ({why})" if ok else why
+        if fname == "to_liquid_string":
+            kw = {k.arg: ast.unparse(k.value) for k in e.keywords}
+            ae = kw.get("auto_escape", "")
+            if ae in ("context.auto_escape", "auto_escape", "context.env.auto_escape", "self.auto_escape", "True"):
+                return True, f"to_liquid_string(.., auto_escape={ae}) escapes everything that is not Markup"
+            return False, f"to_liquid_string without auto_escape ({ae or 'default False'})"
+        if fname == "str" and len(e.args) == 1 and isinstance(e.args[0], ast.Call) and ast.unparse(e.args[0].func) in ("context.increment", "context.decrement"):
+            return True, "str(int) has no HTML-significant character"
+        if fname in ("self._format_message", "self.format_message"):
+            return True, "Markup % escaped variables (see the format_message obligation)"
+        if fname == "context.env.trim":
+            return _safe_expr(e.args[0], fn, site, depth + 1)
+        if fname.endswith(".getvalue"):
+            return True, "content of an output buffer: everything written to it went through a write-site obligation"
+        return False, f"call {fname}(...) is not known to produce safe text"
+    if isinstance(e, ast.JoinedStr):
+        for v in e.values:
+            if isinstance(v, ast.FormattedValue):
+                t = ast.unparse(v.value)
+                if t not in ("drop.col", "drop.row", "drop.row + 1", "drop.col + 1", "self.token.wc[0]", "self.token.wc[1]"):
+                    return False, f"f-string interpolates {t}"
+        return True, "engine markup with integer fields"
+    if isinstance(e, ast.Attribute) and isinstance(e.value, ast.Name) and e.value.id == "self" and e.attr in ("text", "value"):
+        return True, f"self.{e.attr}: template-author text fixed at parse time"
+    if isinstance(e, ast.Name):
+        src, body, idx = _assignments_before(fn, site, e.id)
+        if src is not None:
+            ok, why = _safe_expr(src, fn, site, depth + 1)
+            return ok, f"{e.id} = {why}" if ok else f"{e.id} <- {why}"
+        return False, f"`{e.id}` is not assigned from safe text before the site"
+    return False, f"{type(e).__name__} not recognised as safe"
+
+
+@register("C04")
+def c04_sites(repo_root, tier):
+    repo = Repo(repo_root)
+    obs = []
+    n_markup = n_write = 0
+    for m in repo.all_modules():
+        if m.name.endswith("filters.babel"):
+            continue
+        for qual, cls, fn, parent in function_defs(m):
+            for n in own_nodes(fn):
+                if not isinstance(n, ast.Call):
+                    continue
+                fname = ast.unparse(n.func)
+                # ---- (1) Markup construction sites: the argument is safe under the path condition
+                if fname in MARKUP_NAMES and n.args:
+                    n_markup += 1
+                    oid = f"{m.name}:{qual}/site.markup@{_ordinal(fn, n)}"
+                    arg = n.args[0]
+                    guards = _guard_of(fn, n)
+                    gtxt = " and ".join(guards)
+                    ok, why = _safe_expr(arg, fn, n)
+                    if not ok:
+                        # rules that depend on the guard
+                        if "isinstance(val, Markup)" in gtxt and ast.unparse(arg) == "stripped":
+                            ok, why = True, "input is already Markup (tags removed from author-approved markup)"
+                        elif "isinstance(fmt, Markup)" in gtxt and ast.unparse(arg) == "rv":
+                            ok, why = True, "strftime of a Markup format string (date fields carry no HTML-significant character)"
+                        elif qual.split(".")[-1] in ("safe",) and m.name.endswith("filters.string"):
+                            ok, why = True, "the explicit `safe` filter (excluded by the property)"
+                        elif qual == "StringLiteral.evaluate" and ast.unparse(arg) == "self.value":
+                            ok, why = True, "template-author string literal"
+                        elif qual == "RenderContext.markup":
+                            ok, why = True, "wraps captured output (callers checked below)"
+                        elif ast.unparse(arg) in ("text", "message_text") and ("translate" in m.name):
+                            ok, why = True, "catalog text (trusted); its message id is escaped when auto_escape_message (checked below)"
+                        else:
+                            # Markup(x).unescape(): the Markup never leaves the expression
+                            par = _parent_attr(fn, n)
+                            if par == "unescape":
+                                ok, why = True, "Markup(val).unescape() yields a plain str that is escaped again on output"
+                    _ob(obs, oid, ok, f"Markup({ast.unparse(arg)}) [{gtxt or 'unguarded'}]: {why}")
+                # ---- (2) write sites
+                if isinstance(n.func, ast.Attribute) and n.func.attr == "write" and ast.unparse(n.func.value) in ("buffer", "buf", "self.buffer") and n.args:
+                    n_write += 1
+                    oid = f"{m.name}:{qual}/site.write@{_ordinal(fn, n)}"
+                    arg = n.args[0]
+                    ok, why = _safe_expr(arg, fn, n)
+                    if not ok and ast.unparse(arg) == "str(macro)":
+                        ok, why = True, "str() of an Undefined: empty, or a debug message made of template-author names"
+                    _ob(obs, oid, ok, f"write({ast.unparse(arg)[:80]}): {why}")
+    _ob(obs, "liquid2/site.markup.count", n_markup >= 15 and n_write >= 20, f"{n_markup} Markup construction sites and {n_write} write sites classified")
+    # ---- (3) callers of context.markup pass buffer content only
+    bad = []
+    k = 0
+    for m, qual, cls, fn, parent in _all_functions(repo):
+        for c in _calls(fn):
+            if isinstance(c.func, ast.Attribute) and c.func.attr == "markup" and ast.unparse(c.func.value) == "context":
+                k += 1
+                if not (c.args and ast.unparse(c.args[0]).endswith(".getvalue()")):
+                    bad.append(f"{m.name}:{qual}@{c.lineno}: markup({ast.unparse(c.args[0]) if c.args else ''})")
+    _ob(obs, "liquid2/site.context-markup-callers", not bad and k > 0, f"{k} callers of context.markup, all wrap buffer content" if not bad else str(bad[:3]))
+    # ---- (4) translation filters escape the message id whenever the environment auto-escapes
+    bm = repo.module("liquid2.builtin")
+    reg = bm.functions.get("register_default_tags_and_filters") if bm else None
+    names = ("GetText", "NGetText", "NPGetText", "PGetText", "Translate")
+    ok = False
+    if reg is not None:
+        found = 0
+        for c in _calls(reg):
+            if isinstance(c.func, ast.Name) and c.func.id in names:
+                kw = {k_.arg: ast.unparse(k_.value) for k_ in c.keywords}
+                if kw.get("auto_escape_message") == "env.auto_escape":
+                    found += 1
+        ok = found == len(names)
+    _ob(obs, "liquid2.builtin:register_default_tags_and_filters/site.auto-escape-message", ok, "all five translation filters are registered with auto_escape_message=env.auto_escape")
+    tm = repo.module("liquid2.builtin.filters.translate")
+    for cname in names:
+        fn = tm.find(f"{cname}.__call__") if tm else None
+        ok = False
+        if fn is not None:
+            tls = [c for c in _calls(fn) if ast.unparse(c.func) == "to_liquid_string"]
+            ok = bool(tls) and all({k_.arg: ast.unparse(k_.value) for k_ in c.keywords}.get("auto_escape") == "auto_escape and self.auto_escape_message" for c in tls)
+        _ob(obs, f"liquid2.builtin.filters.translate:{cname}.__call__/site.message-id-escaped", ok, "every operand handed to the catalog is stringified with auto_escape=(auto_escape and self.auto_escape_message)")
+    # ---- (5) string literals come from the parser only
+    bad = []
+    for m, qual, cls, fn, parent in _all_functions(repo):
+        for c in _calls(fn):
+            if isinstance(c.func, ast.Name) and c.func.id == "StringLiteral":
+                top = qual.split(".")[0] if cls is None else qual.split(".")[1]
+                if not (top.startswith("parse") or top in ("__init__",)):
+                    bad.append(f"{m.name}:{qual}@{c.lineno}")
+    _ob(obs, "liquid2/site.string-literals-from-parser", not bad, "StringLiteral objects are built only by parse functions (from template tokens)" if not bad else str(bad[:4]))
+    return {"obligations": obs, "samples": [{"obligation": o["oid"], "backend": "site", "note": o["note"]} for o in obs[:3]],
+            "trusted": ["markupsafe: escape() output has no unescaped < > & ' \"; Markup operators (+ % join replace ...) escape non-Markup operands",
+                        "urllib.parse.quote_plus output alphabet; datetime.strftime fields; html.parser for strip_tags"],
+            "functions": [], "assumptions": ["translation catalogs and template literals are trusted text"]}
+
+
+def _parent_attr(fn, call):
+    for n in ast.walk(fn):
+        if isinstance(n, ast.Attribute) and n.value is call:
+            return n.attr
+    return None
